@@ -21,6 +21,7 @@ def gen_template(rng, toks, length, profile="mixed", kind_hint=None):
     icals = [toks.tok(gen_ical(rng, uid=rng.choice(uids))) for _ in range(5)]
     cards = [toks.tok(gen_vcard(rng)) for _ in range(2)]
     plains = [toks.tok(b"hello"), toks.tok(b"")]
+    nouid = toks.tok(vevent(None, summary="no uid", uidline=False))
     bad_ical = [toks.tok(b) for b in rng.sample(INVALID_ICAL, 3)]
     bad_card = [toks.tok(b) for b in rng.sample(INVALID_VCARD, 2)]
     ops = []
@@ -53,7 +54,10 @@ def gen_template(rng, toks, length, profile="mixed", kind_hint=None):
                 ct = rng.choice(["text/calendar", "text/calendar", "text/calendar; charset=utf-8", None])
                 pool = icals if rng.random() < 0.85 else bad_ical
                 if profile == "mixed" and rng.random() < 0.04:
-                    ct, pool = "text/plain", plains + icals     # malformed stream: mismatch
+                    # content type and extension disagree.  No UID in these bodies: a calendar object
+                    # smuggled in as text/plain is later read by extension, two members then share a
+                    # UID and which of them the UID map names depends on os.listdir order (vdir)
+                    ct, pool = "text/plain", plains + [nouid]
             elif name.endswith(".vcf"):
                 ct = rng.choice(["text/vcard", None])
                 pool = cards if rng.random() < 0.8 else bad_card
